@@ -56,6 +56,12 @@ def run(ctx):
     sets = [dict(PUBLISHED)] + [
         {"sd": rng.uniform(0.02, 2.0), "theta_s": rng.uniform(0.01, 1.0), "b": rng.uniform(0.3, 20.0),
          "psi_s": rng.uniform(-1.0, -0.01)} for _ in range(n)]
+    # one-at-a-time sweeps, as in a sensitivity study: every other parameter bit-identical to an earlier set
+    for base in [dict(PUBLISHED)] + [dict(x) for x in sets[1:3]]:
+        for key, lo, hi in (("sd", 0.02, 2.0), ("theta_s", 0.01, 1.0), ("b", 0.3, 20.0), ("psi_s", -1.0, -0.01)):
+            v = dict(base)
+            v[key] = rng.uniform(lo, hi)
+            sets.append(v)
     zm = 0.5 * (np.linspace(-0.99, 1.01, 201) + np.linspace(-1, 1, 201))
     for p in sets:
         cdf = [float(v) for v in scipy.stats.norm.cdf(zm, loc=0, scale=p["sd"])]
